@@ -1,4 +1,5 @@
 import Martian.Lemmas.Mitm
+import Martian.Generated.Mitm
 /-!
 C06 — Forged certificates verify for the requested host under the configured CA.
 Only property theorems and non-vacuity examples live here.
@@ -330,6 +331,19 @@ theorem two_steps_are_cert (cfg : Config) (hostname : Bytes) (now : Int) (s : St
     | some c =>
       cases hg : goVerify c (normalise hostname) now <;>
         simp [stepThread, cert, certFor, he, hl, hg, issueAndStore]
+
+/-! ### facts regenerated from the source on every check (vextract, `Generated/Mitm.lean`) -/
+
+/-- The cache map is touched in exactly two places of the package: the lookup inside an
+(R)Lock/(R)Unlock pair and the insert inside a Lock/Unlock pair of `certmu` — the two atomic steps
+of `stepThread`. An edit that adds an unguarded access or drops a lock breaks this theorem. -/
+theorem facts_lock_discipline :
+    Generated.Mitm.certsAccesses = 2 ∧ Generated.Mitm.lookupUnderLock = true ∧
+      Generated.Mitm.insertUnderWriteLock = true := by decide
+
+/-- Defaults of `NewConfig`, which the driver's initial state (3 600 000 ms, "Martian Proxy") mirrors. -/
+theorem facts_defaults :
+    Generated.Mitm.defaultValidity = "time.Hour" ∧ Generated.Mitm.defaultOrg = "\"Martian Proxy\"" := by decide
 
 /-! ### boundaries of the statement (documented, not findings) -/
 
